@@ -96,7 +96,9 @@ def access_paths(tf, ch, lazy, has_scaling_ok):
                 if c.offset != off:
                     raise AssertionError('chunk offset %d, running count %d' % (c.offset, off))
                 parts.append(N(c[:]))
-                off += len(c)
+                if len(c) != parts[-1][1]:
+                    raise AssertionError('len(chunk) %d but it holds %d values' % (len(c), parts[-1][1]))
+                off += parts[-1][1]
             return concat(parts)
 
         def file_chunks():
@@ -106,7 +108,9 @@ def access_paths(tf, ch, lazy, has_scaling_ok):
                 if c.offset != off:
                     raise AssertionError('file chunk offset %d, running count %d' % (c.offset, off))
                 parts.append(N(c[:]))
-                off += len(c)
+                if len(c) != parts[-1][1]:
+                    raise AssertionError('len(file chunk) %d but it holds %d values' % (len(c), parts[-1][1]))
+                off += parts[-1][1]
             return concat(parts)
         out += [('channel-chunks', chan_chunks), ('file-chunks', file_chunks)]
     return out
